@@ -332,3 +332,7 @@ Proof.
   apply (in_map ts_cfg) in Hin. rewrite Hcfg in Hin. unfold sys_init in Hin. cbn [s_tasks] in Hin.
   rewrite map_map in Hin. cbn in Hin. rewrite map_id in Hin. exact Hin.
 Qed.
+
+Lemma two_pairs_differ_lemma :
+  (t_src (Task 1 1 2 3 1 0 1 1 [] true true), t_ig (Task 1 1 2 3 1 0 1 1 [] true true)) <> (1, 4).
+Proof. cbn. intros H. inversion H. Qed.
